@@ -1,4 +1,4 @@
-import BppProofs.Lemmas.NumDerivExact
+import BppProofs.Lemmas.NumDerivNoRaise
 /-!
 # C12 — numerical derivatives are transparent and exact on low-degree polynomials
 
@@ -346,5 +346,45 @@ theorem three_point_stored_exact (f : List ℝ → ℝ) (w : W ℝ) (params : PL
     simp only [sub_eq_add_neg] at this
     simp only [zero_mul, add_zero]
     rw [this]
+
+
+/-! ## 5. Next to a constraint: one-sided probes instead of raising -/
+
+/-- `one_sided_no_raise`: the two-point wrapper, and the three-point wrapper without cross
+derivatives, raise exactly when the wrapped function itself refuses the requested values — never
+because a probe ran into a constraint (the probe is retried on the other side, then with halved
+steps; after ten refusals the NaN marker is stored and the previous parameter is reset).
+Hypotheses besides those of `transparent`: the wrapped function is at a feasible point, the
+selection has no duplicate and only names of the wrapped function, the step is not 0.
+(The five-point scheme and the cross-derivative block do let a ConstraintException / Exception
+escape: findings C12-5pt-raise-leaves-probe and C12-3pt-cross-limit-leaves-probe.) -/
+theorem one_sided_no_raise (f : List ℝ → ℝ) (w : W ℝ) (e : Entry ℝ) (hown : Own w.fn) (hok : w.fn.OK f)
+    (hfeas : Feas w.fn.params) (hlog : ∀ pt ∈ w.fn.log, PtOK w.fn.params pt) (he : e.Nodup)
+    (hscheme : w.scheme = .two ∨ (w.scheme = .three ∧ w.cx = false))
+    (hvars : w.vars.Nodup) (hin : ∀ v ∈ w.vars, v ∈ names w.fn.params) (hh : w.h ≠ 0) :
+    (w.call f e).2.1 = (w.fn.forward f e).2.1 := by
+  have hinv : Inv f w.fn.params w.fn := ⟨Skel.refl _, hok, hfeas, hlog⟩
+  have hfi := (hinv.forward (f := f) e).1
+  unfold W.call
+  rcases hfw : w.fn.forward f e with ⟨fn1, x, b⟩
+  rw [hfw] at hfi
+  cases x with
+  | some x => rfl
+  | none =>
+    simp only []
+    obtain ⟨o1, o2, _, pl, hl, hsy, hnd⟩ := forward_spec f w.fn e hown hok he _ hfw rfl
+    simp only [] at o1 o2 hl hsy hfi
+    rw [hl]
+    simp only []
+    have hin1 : ∀ v ∈ w.vars, v ∈ names fn1.params := by
+      intro v hv; rw [hfi.skel.names]; exact hin v hv
+    unfold W.update
+    rcases hscheme with hs | ⟨hs, hcx⟩
+    · have := update2_noexc f ({ w with fn := fn1 } : W ℝ) pl o1 o2 hfi.feas hsy hnd hvars hin1 hh
+      simp only [hs] at this ⊢
+      exact this
+    · have := update3_noexc f ({ w with fn := fn1 } : W ℝ) pl o1 o2 hfi.feas hsy hnd hvars hin1 hh hcx
+      simp only [hs] at this ⊢
+      exact this
 
 end Bpp.C12
